@@ -34,6 +34,13 @@ func c07Compile(c *Ctx) {
 	}
 	c07PairCorrespondence(c, n)
 	c07Streams(c)
+	np := 300
+	if c.Thorough {
+		np = 8000
+	}
+	c07PathStream(c, np)
+	c07FieldTypeTie(c, np/2)
+	c07StrictStream(c, np*2)
 	c07Pipelines(c)
 	c07MutationOracle(c)
 }
@@ -1003,6 +1010,8 @@ func c07PairCorrespondence(c *Ctx, n int) {
 		real *syntax.BindStm
 	}
 	var lits []litCheck
+	type hypReq struct{ env, t, e string }
+	var hyps []hypReq
 	for i := 0; i < n; i++ {
 		if i%6 == 0 {
 			env = c07NewEnv(c)
@@ -1014,6 +1023,13 @@ func c07PairCorrespondence(c *Ctx, n int) {
 		}
 		if len(r.Samples) < 6 && i%97 == 0 {
 			r.sample(cs.describe(v))
+		}
+		for _, b := range cs.binds {
+			for _, p := range cs.params {
+				if p.id == b.id {
+					hyps = append(hyps, hypReq{cs.env.enc(), p.t.enc(), b.b.e.enc()})
+				}
+			}
 		}
 		// accepted: literal delivery monitor
 		for j, b := range cs.binds {
@@ -1030,6 +1046,25 @@ func c07PairCorrespondence(c *Ctx, n int) {
 			}
 			if rb != nil {
 				lits = append(lits, litCheck{cs, v, j, rb})
+			}
+		}
+	}
+	// the decidable hypotheses of the soundness theorems on every binding of every accepted call
+	{
+		var hreqs [][]string
+		for _, h := range hyps {
+			hreqs = append(hreqs, []string{"C07.hyp", h.env, h.t, h.e})
+		}
+		for i, rep := range c.Drv.AskBatch(hreqs) {
+			f := strings.Fields(rep)
+			if len(f) != 3 {
+				r.note("bad reply of C07.hyp: %q", rep)
+				continue
+			}
+			r.hist("hyp_holeFree=" + f[2])
+			if f[0] != "true" || f[1] != "true" {
+				r.violate(Violation{Kind: "correspondence", Key: "C07:hyp:wf", What: "a generated binding the compiler accepts does not satisfy Ty.wf / Exp.wf (hypotheses of every soundness theorem): " + rep,
+					Input: map[string]interface{}{"type": hyps[i].t, "exp": hyps[i].e}, Broken: "hypotheses t.wf, e.wf"})
 			}
 		}
 	}
